@@ -237,11 +237,13 @@ def lemma_fires_failure_count_times(w):
 GROUP = Group(
     name='errors', world=world, contracts=[INCREMENT, RESET] + SYNTH + INJECTED + [INC_INLINE, RST_INLINE, SCALE_INLINE],
     lemmas=[Lemma('fires_failure_count_times', ['C16'], lemma_fires_failure_count_times)],
+    bounded=[{'name': 'c16_options', 'props': ['C16'], 'cmd': ['/venv/bin/python', 'bounded/c16_options.py', '{tier}', '--repo', '{repo}']}],
     assumptions=[
         'C16: flask.session is a mapping; only the one key the call builds (error-<usage>-<code>) is read or written; '
         'one configured (code, position) item per content type (the list loop runs over that concrete one-element list)',
         'C16: flask.make_response(text, code) builds a response with that status',
     ],
     not_covered=['check_for_synthetic_manifest_error (same counter, manifest side)', 'several items addressing the same '
-                 'segment with the same code (they share one counter)', 'option parsing of the error lists'],
+                 'segment with the same code (they share one counter)', 'option parsing of the error lists', 'DRM / time-source / event names: string dispatch outside the verifier\'s reach - '
+                 'DRM names only by the bounded stand-in c16_options (labelled bounded)'],
 )
